@@ -18,8 +18,9 @@ Inductive obs := Obs (hs : bool) (disp : nat) (stamp : list key) (crash : bool) 
    incarnation), what it presents in a full handshake, its identity message,
    number of application messages it sent, observation *)
 Inductive case :=
-| Case (lv : level) (r : role) (s : suite) (holds : list key) (t : ticket) (h : hello) (id : ident)
-       (msgs : nat) (o : obs)
+| Case (lv : level) (r : role) (s : suite) (holds : list key)
+       (prior : list key)   (* keys of honest servers that connected genuinely to the router before *)
+       (t : ticket) (h : hello) (id : ident) (msgs : nat) (o : obs)
 (* two overlapping dials of the honest host: it dials e (the link under
    observation, nonce 0) and, before the peer answers, [other] (nonce 4 =
    Tls.conc_nonce; answered honestly by a holder of [other]); then the peer
@@ -54,18 +55,18 @@ Definition code_dials_share_verifier := false.
 (* the model's prediction: outcome, and whether the connection is a resumed session *)
 Definition model_of (c : case) : outcome * bool :=
   match c with
-  | Case lv r s _ t h id msgs _ => link_r code_fx lv r s t h id msgs
+  | Case lv r s _ prior t h id msgs _ => link_h code_fx lv r s prior t h id msgs
   | CaseConc s _ e other h msgs _ _ =>
       (conc_dial code_dials_share_verifier code_fx s e other h msgs, false)
   end.
 
 Definition obs_of (c : case) : obs :=
-  match c with Case _ _ _ _ _ _ _ _ o => o | CaseConc _ _ _ _ _ _ o _ => o end.
+  match c with Case _ _ _ _ _ _ _ _ _ o => o | CaseConc _ _ _ _ _ _ o _ => o end.
 
 (* observations beside the link under observation *)
 Definition extra_ok (c : case) : bool :=
   match c with
-  | Case _ _ _ _ _ _ _ _ _ => true
+  | Case _ _ _ _ _ _ _ _ _ _ => true
   | CaseConc s _ e other _ _ _ other_up =>
       Bool.eqb (conc_other_up code_dials_share_verifier code_fx s e other 1) other_up
   end.
@@ -86,7 +87,7 @@ Definition mismatches (l : list case) : list nat := mism_idx agree l.
    [Tls.link_property] in Net/TlsProofs.v (prop_check_sound) *)
 Definition check (c : case) : list nat :=
   match c with
-  | Case lv r s holds t h id _ (Obs hs disp stamp crash _ resumed) =>
+  | Case lv r s holds _ t h id _ (Obs hs disp stamp crash _ resumed) =>
       (* on a resumption the peer presented nothing but the ticket *)
       prop_check lv r s holds (effective resumed t h) id hs disp stamp crash
   | CaseConc s holds e _ h _ (Obs hs disp stamp crash _ _) _ =>
